@@ -4,7 +4,7 @@ from hc_oracles import wire_rate_oracle, crash_oracle, frame_size_oracle, rate_o
 
 PROP = "C13"
 COQ_FILE = "props/C13.v"
-THEOREMS = ['C13_rate_le_ceiling', 'C13_data_frame_needs_credit', 'C13_ack_frame_needs_credit', 'C13_sync_frame_needs_credit', 'C13_credit_capped_by_rate_times_rtt', 'C13_credit_gain_is_refill', 'C13_refill_schedule_independent', 'C13_frame_length', 'C13_flush_charges_every_byte', 'C13_flush_within_credit', 'C13_credit_ledger', 'C13_step_gain', 'C13_flush_leaves_credit']
+THEOREMS = ['C13_rate_le_ceiling', 'C13_data_frame_needs_credit', 'C13_ack_frame_needs_credit', 'C13_sync_frame_needs_credit', 'C13_credit_capped_by_rate_times_rtt', 'C13_credit_gain_is_refill', 'C13_refill_schedule_independent', 'C13_frame_length', 'C13_flush_charges_every_byte', 'C13_flush_within_credit', 'C13_credit_ledger', 'C13_step_gain', 'C13_flush_leaves_credit', 'C13_hc_rate_le_ceiling']
 USES_FLOATS = True
 NEEDS_RELEASE = True
 ASSUMPTIONS = ['proved: X <= ceiling (all reachable controller states), frames only start with credit >= 0, credit capped at round(X*rtt) by step() and increased by floor(X*t_now) - floor(X*t_prev), a sum that does not depend on the step schedule (C13_refill_schedule_independent), and for a whole HalfConnection flush (all loops, ack+data+sync): new credit = old credit - bytes emitted exactly, nothing emitted on negative credit, all frames but the last fit in the credit (C13_flush_charges_every_byte, C13_flush_within_credit); over whole histories of sends / receives / steps / flushes / incoming frames bytes emitted = initial credit + gains of the steps - current credit, a step gaining at most floor(X*t_now) - floor(X*t_prev) and nothing on the first step, no other operation touching the credit (CreditLedger.v: C13_credit_ledger, C13_step_gain, C13_flush_leaves_credit); the real-number interval bound is checked by the oracle with the virtual clock, not derived through the float arithmetic (partial)', 'the ratepair and cadence streams never override the flush credit: all credit comes from step(); the cadence stream steps every 1-7 ms under a low ceiling (where per-step rounding of the refill shows, defect D20)']
